@@ -152,9 +152,16 @@ var (
 
 // randomOp performs one random API operation. inHandler limits to non-blocking ones.
 func (w *world) randomOp(r *rand.Rand, inHandler bool) {
-	cs := w.socks[r.Intn(len(w.socks))]
+	// handlers fire while runProgram is still creating managers and sockets: read the lists under the lock
+	w.smu.Lock()
+	socks, mgrs := w.socks, w.mgrs
+	w.smu.Unlock()
+	if len(socks) == 0 || len(mgrs) == 0 {
+		return
+	}
+	cs := socks[r.Intn(len(socks))]
 	ss := w.serverSocket(r)
-	m := w.mgrs[r.Intn(len(w.mgrs))]
+	m := mgrs[r.Intn(len(mgrs))]
 	nsp := w.srv.IO.Of(nsps[r.Intn(len(nsps))])
 	room := rooms[r.Intn(len(rooms))]
 	n := r.Intn(1000)
@@ -354,14 +361,54 @@ func runProgram(run *vk.Run, log *opLog, program int, r *rand.Rand) {
 		mcfg.ReconnectionDelay = rig.Dur(20 * time.Millisecond)
 		mcfg.ReconnectionDelayMax = rig.Dur(50 * time.Millisecond)
 		m := sio.NewManager(srv.URL, mcfg)
+		w.smu.Lock()
 		w.mgrs = append(w.mgrs, m)
+		w.smu.Unlock()
+		// Manager lifecycle handlers are handlers too (seeded C16-H: open handlers run with the Manager's
+		// connection locks held): besides a random operation they stop and restart the very Manager / one of its
+		// sockets they belong to, or emit on it — from inside the handler, under the per-operation hang watchdog.
+		var mineMu sync.Mutex
+		var mine []sio.ClientSocket
+		lifecycle := func(kind string) {
+			fromHandler(kind)
+			mineMu.Lock()
+			own := append([]sio.ClientSocket(nil), mine...)
+			mineMu.Unlock()
+			if w.inHandl.Add(1) > 2000 || len(own) == 0 {
+				return
+			}
+			hrand := hr()
+			cs := own[hrand.Intn(len(own))]
+			switch hrand.Intn(12) {
+			case 0:
+				w.do(kind+":socket.Disconnect+Connect", func() { cs.Disconnect(); cs.Connect() })
+			case 1:
+				w.do(kind+":manager.Close+Open", func() { m.Close(); m.Open() })
+			case 2, 3:
+				w.do(kind+":socket.Emit", func() { cs.Emit("e", 1) })
+			case 4:
+				w.do(kind+":socket.Emit+ack", func() { cs.Emit("ea", 1, func(int) {}) })
+			case 5:
+				w.do(kind+":manager.Socket", func() { m.Socket(nsps[hrand.Intn(len(nsps))], nil) })
+			}
+		}
+		m.OnOpen(func() { lifecycle("manager-open") })
+		m.OnClose(func(sio.Reason, error) { lifecycle("manager-close") })
+		m.OnReconnect(func(uint32) { lifecycle("manager-reconnect") })
+		m.OnReconnectAttempt(func(uint32) { lifecycle("manager-reconnect-attempt") })
+		m.OnError(func(error) { lifecycle("manager-error") })
 		for _, name := range nsps {
 			s := m.Socket(name, nil)
 			s.OnEvent("e", func(n int) { fromHandler("client-event") })
 			s.OnEvent("ea", func(n int, ack func(int)) { ack(n); fromHandler("client-event-ack") })
 			s.OnConnect(func() { fromHandler("client-connect") })
 			s.OnDisconnect(func(sio.Reason) { fromHandler("client-disconnect") })
+			w.smu.Lock()
 			w.socks = append(w.socks, s)
+			w.smu.Unlock()
+			mineMu.Lock()
+			mine = append(mine, s)
+			mineMu.Unlock()
 			s.Connect()
 		}
 	}
